@@ -4,6 +4,7 @@ import LiquidModel.Drv.FilterOp
 import LiquidModel.Drv.C05
 import LiquidModel.Drv.C06
 import LiquidModel.Drv.C07
+import LiquidModel.Drv.C10
 import LiquidModel.Drv.C18
 import LiquidModel.Drv.C16
 import LiquidModel.Drv.C15
@@ -22,6 +23,7 @@ def dispatch (op : String) : Option (List String → String) :=
   | "c05" => some c05Op
   | "c06" => some c06Op
   | "lit" => some litOp
+  | "sink" => some (sinkOp baseFilters)
   | "stack" => some stackOp
   | "c16esc" => some c16EscOp
   | "c16keep" => some c16KeepOp
